@@ -30,7 +30,8 @@ Common(e, live) ==
     \* periodic: a live stream refreshes once per period; a stopped one at most once more
     \cup (IF (e.live = 1 => e.rate >= e.window - 2 /\ e.rate <= e.window + 2) /\ (e.live = 0 => e.rate <= 1) THEN {} ELSE {"refresh rate does not match the period"})
 
-\* sequential histories: start -> running; stop and entity removal -> not running; adding the entity changes nothing
+\* sequential histories: start -> running; stop and entity removal -> not running; adding the entity, or adding the
+\* heartbeat function to its feature once more ("addfn"), changes nothing
 RECURSIVE RunningAfter(_, _, _)
 RunningAfter(ops, i, r) == IF i > Len(ops) THEN r
                            ELSE RunningAfter(ops, i + 1, IF ops[i] = "start" THEN TRUE ELSE IF ops[i] \in {"stop", "rement"} THEN FALSE ELSE r)
